@@ -57,6 +57,15 @@ func (k *hookKV) Put(ctx context.Context, key, val string, opts ...clientv3.OpOp
 	return k.KV.Put(ctx, key, val, opts...)
 }
 
+// Delete: DeleteTopic's offset cleanup runs between its local mutation and the write-back, which is
+// the earliest seam after the fresh read.
+func (k *hookKV) Delete(ctx context.Context, key string, opts ...clientv3.OpOption) (*clientv3.DeleteResponse, error) {
+	if h := k.take(); h != nil {
+		h()
+	}
+	return k.KV.Delete(ctx, key, opts...)
+}
+
 func (k *hookKV) Txn(ctx context.Context) clientv3.Txn { return &hookTxn{Txn: k.KV.Txn(ctx), k: k} }
 
 type hookTxn struct {
@@ -74,7 +83,75 @@ func (t *hookTxn) Commit() (*clientv3.TxnResponse, error) {
 	return t.Txn.Commit()
 }
 
+const probeKey = snapshotKey + "-verif-probe"
+
+// lagWatcher makes the delivery of watch notifications a schedulable event: every notification
+// for the snapshot key is held (one event per notification) until the harness hands it over.
+// Events for the probe key (same watched prefix) only serve as a barrier and are swallowed.
+type lagWatcher struct {
+	clientv3.Watcher
+	mu    sync.Mutex
+	held  []clientv3.WatchResponse
+	out   chan clientv3.WatchResponse
+	probe string // last probe value seen
+}
+
+func (w *lagWatcher) Watch(ctx context.Context, key string, opts ...clientv3.OpOption) clientv3.WatchChan {
+	in := w.Watcher.Watch(ctx, key, opts...)
+	out := make(chan clientv3.WatchResponse) // unbuffered: a completed send means the loop took it
+	w.mu.Lock()
+	w.out = out
+	w.mu.Unlock()
+	go func() {
+		for resp := range in {
+			w.mu.Lock()
+			for _, ev := range resp.Events {
+				switch string(ev.Kv.Key) {
+				case probeKey:
+					w.probe = string(ev.Kv.Value)
+				case snapshotKey:
+					w.held = append(w.held, clientv3.WatchResponse{Header: resp.Header, Events: []*clientv3.Event{ev}})
+				}
+			}
+			w.mu.Unlock()
+		}
+	}()
+	return out
+}
+
+func (w *lagWatcher) sawProbe(v string) bool {
+	w.mu.Lock()
+	defer w.mu.Unlock()
+	return w.out != nil && w.probe == v
+}
+
+func (w *lagWatcher) pop() (clientv3.WatchResponse, bool) {
+	w.mu.Lock()
+	defer w.mu.Unlock()
+	if len(w.held) == 0 {
+		return clientv3.WatchResponse{}, false
+	}
+	r := w.held[0]
+	w.held = w.held[1:]
+	return r, true
+}
+
+// barrier returns once the watcher loop has finished everything handed to it before: the
+// sentinel carries an error, so the loop skips it without touching anything.
+func (w *lagWatcher) barrier(timeout time.Duration) bool {
+	select {
+	case w.out <- clientv3.WatchResponse{CompactRevision: 1}:
+		return true
+	case <-time.After(timeout):
+		return false
+	}
+}
+
 type world struct {
+	lags     []*lagWatcher
+	inflight []bool // a handed-over notification whose processing has not been confirmed yet
+	waiting  [][]clientv3.WatchResponse // notifications that arrived while the watcher loop was busy (blocked on persistMu)
+	probeSeq int
 	endpoints []string
 	admin     *clientv3.Client
 	clients   []*clientv3.Client
@@ -126,10 +203,10 @@ var cleanup = func() {}
 
 func (w *world) reset() {
 	ctx := context.Background()
-	for _, c := range w.clients {
-		_ = c.Close()
+	for _, st := range w.stores {
+		_ = st.Close()
 	}
-	w.clients, w.kvs, w.stores = nil, nil, nil
+	w.clients, w.kvs, w.stores, w.lags, w.inflight, w.waiting = nil, nil, nil, nil, nil, nil
 	if _, err := w.admin.Delete(ctx, "", clientv3.WithPrefix()); err != nil {
 		panic(err)
 	}
@@ -143,11 +220,90 @@ func (w *world) reset() {
 		}
 		kv := &hookKV{KV: cli.KV}
 		cli.KV = kv
+		lag := &lagWatcher{Watcher: cli.Watcher}
+		cli.Watcher = lag
 		w.clients = append(w.clients, cli)
 		w.kvs = append(w.kvs, kv)
-		w.stores = append(w.stores, metadata.VerifNewEtcdStoreC21(cli, metadata.ClusterMetadata{
+		w.lags = append(w.lags, lag)
+		w.inflight = append(w.inflight, false)
+		w.waiting = append(w.waiting, nil)
+		w.stores = append(w.stores, metadata.VerifNewEtcdStoreC21(ctx, cli, metadata.ClusterMetadata{
 			Brokers: []protocol.MetadataBroker{{NodeID: 1, Host: "b", Port: 9092}},
 		}))
+	}
+	w.syncWatchers()
+}
+
+// syncWatchers returns once every broker's watch stream has received everything written so far
+// (watch events arrive in revision order, so seeing the probe means all earlier ones are held).
+func (w *world) syncWatchers() {
+	deadline := time.Now().Add(30 * time.Second)
+	for {
+		// a fresh probe each round: a watch that registered after the previous probe never sees that one
+		w.probeSeq++
+		v := strconv.Itoa(w.probeSeq)
+		if _, err := w.admin.Put(context.Background(), probeKey, v); err == nil {
+			until := time.Now().Add(250 * time.Millisecond)
+			for time.Now().Before(until) {
+				all := true
+				for _, l := range w.lags {
+					if !l.sawProbe(v) {
+						all = false
+					}
+				}
+				if all {
+					return
+				}
+				time.Sleep(time.Millisecond)
+			}
+		}
+		if time.Now().After(deadline) {
+			panic("watch streams did not catch up")
+		}
+	}
+}
+
+// deliver hands broker b its oldest held notification.  self = the delivery happens inside b's own
+// call (the real watcher then blocks on persistMu until the call is over, so only wait briefly).
+func (w *world) deliver(b int, self bool) bool {
+	w.syncWatchers()
+	resp, ok := w.lags[b].pop()
+	if !ok {
+		return false
+	}
+	if w.inflight[b] {
+		// the loop is still inside refreshSnapshot waiting for persistMu: the notification queues up
+		// behind it (as it would in the client's buffered watch channel) and is processed at settle()
+		w.waiting[b] = append(w.waiting[b], resp)
+		return true
+	}
+	w.lags[b].out <- resp
+	wait := 30 * time.Second
+	if self {
+		wait = 300 * time.Millisecond
+	}
+	if !w.lags[b].barrier(wait) {
+		w.inflight[b] = true
+	}
+	return true
+}
+
+// settle waits for deliveries that could not be confirmed while a call was running.
+func (w *world) settle() {
+	for b := range w.inflight {
+		if w.inflight[b] {
+			if !w.lags[b].barrier(30 * time.Second) {
+				panic("watcher loop stuck")
+			}
+			w.inflight[b] = false
+			for _, resp := range w.waiting[b] {
+				w.lags[b].out <- resp
+				if !w.lags[b].barrier(30 * time.Second) {
+					panic("watcher loop stuck")
+				}
+			}
+			w.waiting[b] = nil
+		}
 	}
 }
 
@@ -256,6 +412,15 @@ func parseCalls(f []string) ([]call, bool) {
 				return false
 			}
 			c.crd = crd
+		} else if cur[0] == "late" {
+			if len(cur) != 2 {
+				return false
+			}
+			b, err := strconv.Atoi(cur[1])
+			if err != nil || b < 0 || b >= nBrokers {
+				return false
+			}
+			c.broker, c.kind = b, "late"
 		} else {
 			b, err := strconv.Atoi(cur[0])
 			if err != nil || b < 0 || b >= nBrokers || len(cur) < 3 {
@@ -343,15 +508,21 @@ func (w *world) publish(crd [][2]int) string {
 }
 
 // exec runs one complete call; `inject` (if any) run between its read+mutation and its first write.
-func (w *world) exec(c call, inject []call, injRes *[]string) string {
+func (w *world) exec(c call, inject []call, injRes *[]string, outer int) string {
 	if c.broker == -1 {
 		return w.publish(c.crd)
+	}
+	if c.kind == "late" {
+		if w.deliver(c.broker, c.broker == outer) {
+			return "late"
+		}
+		return "none"
 	}
 	if len(inject) > 0 {
 		w.kvs[c.broker].mu.Lock()
 		w.kvs[c.broker].hook = func() {
 			for _, ic := range inject {
-				*injRes = append(*injRes, w.exec(ic, nil, nil))
+				*injRes = append(*injRes, w.exec(ic, nil, nil, c.broker))
 			}
 		}
 		w.kvs[c.broker].mu.Unlock()
@@ -385,16 +556,17 @@ func (w *world) do(f []string) (out string) {
 		return "reset " + w.dumpAll()
 	case f[0] == "call":
 		calls, ok := parseCalls(f[1:])
-		if !ok || calls[0].broker == -1 {
+		if !ok || calls[0].broker == -1 || calls[0].kind == "late" {
 			return "bad-op"
 		}
 		for _, c := range calls[1:] {
-			if c.broker == calls[0].broker {
+			if c.broker == calls[0].broker && c.kind != "late" {
 				return "bad-op"
 			}
 		}
 		var injRes []string
-		res := w.exec(calls[0], calls[1:], &injRes)
+		res := w.exec(calls[0], calls[1:], &injRes, -1)
+		w.settle()
 		inj := "-"
 		if len(injRes) > 0 {
 			inj = strings.Join(injRes, ",")
@@ -405,10 +577,19 @@ func (w *world) do(f []string) (out string) {
 		if err != nil || b < 0 || b >= nBrokers {
 			return "bad-op"
 		}
-		if err := w.stores[b].RefreshSnapshot(context.Background()); err != nil {
-			return "watch err"
+		// the watch stream catches up: every held notification is handed over, oldest first
+		for w.deliver(b, false) {
 		}
 		return "watch " + w.dumpAll()
+	case f[0] == "late" && len(f) == 2:
+		b, err := strconv.Atoi(f[1])
+		if err != nil || b < 0 || b >= nBrokers {
+			return "bad-op"
+		}
+		if w.deliver(b, false) {
+			return "late delivered " + w.dumpAll()
+		}
+		return "late none " + w.dumpAll()
 	case f[0] == "publish" && len(f) == 2:
 		crd, ok := parseCrd(f[1])
 		if !ok {
